@@ -28,5 +28,22 @@ for d in sorted(os.listdir(sd)):
     m = json.load(open(mp))
     rows.append(f"| {m['id']} | {m['property']} | {m['change']} | {m['needs_to_manifest']} | {'; '.join(m.get('detected_by', [])) or '—'} |")
 s = block("seeded", "\n".join(rows), s)
+# repaired defects: the `fix:` commits of /repo (oldest first)
+import subprocess
+log = subprocess.run(["git", "-C", os.environ.get("VERIF_REPO", "/repo"), "log", "--reverse", "--format=%h %s"],
+                     capture_output=True, text=True).stdout.splitlines()
+fixes = [l for l in log if l.split(" ", 1)[1].startswith("fix:")]
+s = block("fixes", "\n".join(f"* `{l.split(' ',1)[0]}` {l.split(' ',1)[1]}" for l in fixes) +
+          f"\n\n({len(fixes)} repairs; each is recorded as `kind: fixed` in `known_findings.json` with a replay under `corpus/fixed-*` that every check runs first.)", s)
+kf = json.load(open(os.path.join(ROOT, "known_findings.json")))["findings"]
+rows = ["| id | properties | what fails | signature (all features must match) |", "|---|---|---|---|"]
+for f in kf:
+    if f.get("kind") != "finding":
+        continue
+    m = f.get("match", {})
+    sig = "; ".join(f"{k}={v}" for k, v in m.items())
+    what = f["what"].replace("|", "/")
+    rows.append(f"| {f['id']} | {', '.join(f['properties'])} | {what} | `{sig.replace('|', '/')}` |")
+s = block("findings", "\n".join(rows), s)
 open(os.path.join(ROOT, "DESIGN.md"), "w").write(s)
 print("DESIGN.md updated")
